@@ -395,6 +395,12 @@ class _StickySink:
         """Register a session via the callback; stash the minted token for the response."""
         token = self._open_callback(state, ttl)
         self.mint_token = token
+        # A session opened after close_session() in the same request
+        # supersedes the closed one: the response announces only the new
+        # token. Leaving ``closed`` set would put VGI-Session-Close next to
+        # VGI-Session, and the client (which applies the close last) would
+        # drop the token of a session that is still live in the registry.
+        self.closed = False
         # _open_callback set _current_session_context — capture the new id
         # from there. We could equally have _open_callback return it, but
         # the contextvar is the single source of truth right after open.
